@@ -254,6 +254,41 @@ theorem C20.register_write_sets_exactly_strobed_flags (cfg : Cfg) (st : State) (
   simp only [hsel, beq_self_eq_true, hfix]
   exact regStep_register_flag _ _ _ _ _ _ _ _ hk hdis b hb hm hc
 
+/-- a write to a `reg32.Output` (a hardware signal occupying the bits `memMask` of the word, any width / offset /
+    padding): every signal bit in a strobed byte takes the written bit, every signal bit in a byte that is not
+    strobed keeps its value - in particular an empty strobe leaves the output port unchanged -/
+theorem C20.output_write_updates_exactly_strobed_bytes (cfg : Cfg) (st : State) (i : In) (hr : i.rst = false) (j : Nat)
+    (s : RegSt) (hsel : wrSel cfg st.core i = some j) (hs : st.bank[j]? = some s)
+    (hk : (cfg.regs.getD j dfltReg).kind = .output) :
+    ∃ s', (step cfg st i).bank[j]? = some s' ∧
+      ∀ b, b < 32 → (cfg.regs.getD j dfltReg).memMask.testBit b = true → s'.mem.testBit b =
+        (if strobed (wrStrb st.core.wr i) b then (wrData st.core.wr i).testBit b else s.mem.testBit b) := by
+  refine ⟨_, bank_step_get cfg st i hr j s hs, ?_⟩
+  intro b hb hm
+  simp only [hsel, beq_self_eq_true]
+  exact regStep_output _ _ _ _ _ _ _ _ _ hk b hb hm
+
+example :
+    let cfg : Cfg := { aw := 6, regs := [⟨.output, 0, 4, false, true, 0, 0xFF, 0, 0, false, false, false, false, 0⟩] }
+    let st : State := { core := { wr := { ws := 1, awready := true, wready := true } }, bank := [{ mem := 0xA5 }] }
+    let i : In := { awvalid := true, awaddr := 0, wvalid := true, wdata := 0xFFFFFFFF, wstrb := 0b0010 }
+    wrSel cfg st.core i = some 0 ∧ (step cfg st i).bank = [{ mem := 0xA5 }] := by decide
+
+/-- a write to an inline `reg32.Memory`: in the addressed word exactly the strobed bytes take the written bits, every
+    other word keeps its content -/
+theorem C20.memory_write_updates_exactly_strobed_bytes (cfg : Cfg) (st : State) (i : In) (hr : i.rst = false) (j : Nat)
+    (s : RegSt) (hsel : wrSel cfg st.core i = some j) (hs : st.bank[j]? = some s)
+    (hk : (cfg.regs.getD j dfltReg).kind = .memory) :
+    ∃ s', (step cfg st i).bank[j]? = some s' ∧
+      ∀ w b, w < s.words.length → b < 32 → (s'.words.getD w 0).testBit b =
+        (if w = relAddr cfg.aw (cfg.regs.getD j dfltReg) (wrAddr st.core.wr i) / 4 then
+           (if strobed (wrStrb st.core.wr i) b then (wrData st.core.wr i).testBit b else (s.words.getD w 0).testBit b)
+         else (s.words.getD w 0).testBit b) := by
+  refine ⟨_, bank_step_get cfg st i hr j s hs, ?_⟩
+  intro w b hw hb
+  simp only [hsel, beq_self_eq_true]
+  exact regStep_memory _ _ _ _ _ _ _ _ _ hk w b hb hw
+
 /-- THE DEFECT of the unpatched code (`Register._basic_write_` never uses `mask`): with `fixed = false` a write
     with strobe 0001 also overwrites the MemField bits of byte 1 -/
 theorem C20.register_write_respects_strobes_fails_at :
@@ -270,7 +305,7 @@ theorem C20.register_write_respects_strobes_fails_at :
     change register j; reads never change storage -/
 theorem C20.unmapped_access_changes_nothing (cfg : Cfg) (st : State) (i : In) (hr : i.rst = false) (j : Nat) (s : RegSt)
     (hsel : wrSel cfg st.core i ≠ some j) (hs : st.bank[j]? = some s) :
-    ∃ s', (step cfg st i).bank[j]? = some s' ∧ s'.mem = s.mem ∧ s'.tx = s.tx ∧ s'.aux = s.aux := by
+    ∃ s', (step cfg st i).bank[j]? = some s' ∧ s'.mem = s.mem ∧ s'.tx = s.tx ∧ s'.aux = s.aux ∧ s'.words = s.words := by
   refine ⟨_, bank_step_get cfg st i hr j s hs, ?_⟩
   have : (wrSel cfg st.core i == some j) = false := by simpa using hsel
   rw [this]
